@@ -445,7 +445,8 @@ class W3PerDocReader(base.PerDocumentReader):
 
         lenfield = _lenfield(fieldname)
         reader = self._cached_reader(lenfield, LENGTHS_COLUMN)
-        length = byte_to_length(op(reader))
+        # No length column: no document in this segment has the field
+        length = byte_to_length(op(reader)) if reader is not None else 0
         cache[fieldname] = length
         return length
 
